@@ -59,11 +59,13 @@ CLAIMED = {
        "non-singular cell, pbc mask, atoms stored in ANY periodic image and any non-negative radii, the bond list is exactly the pairs i<j and cells c with "
        "2|x_j + cL - x_i| <= R_i + R_j, each with that cell and squared length (sound and complete, via the C03 all-images theorem), and the bond matrix is "
        "its symmetric projection; for ANY bond list the queue-based traversal terminates within its fuel, every atom belongs to exactly one molecule "
-       "(Permutation of 0..N-1) and every molecule is closed under bonding (bonded atoms share a molecule; invariant proved over the traversal). Tied to "
+       "(Permutation of 0..N-1), every molecule is closed under bonding (bonded atoms share a molecule; invariant proved over the traversal), every member "
+       "is joined to the molecule's first atom by a chain of bonds (so the molecules are exactly the connected components), and the recorded cell offsets "
+       "add up along such a chain (molecules_offsets). Tied to "
        "the code by exact correspondence (bond tuples incl. cells and lengths in order; molecules incl. atom order, cell offsets and neighbour lists on the "
        "implementation's own bond list) and oracles: brute-force contact set, union-find components, potential-consistency of the stored offsets and bond "
        "lengths after subset(use_cell_indices) for finite molecules, real radii tables x scale x default incl. elements without tabulated radii.",
-  note="PARTIAL: 'same molecule => connected' (the converse of closure) and the re-assembly of finite molecules are decided by oracles, not proved. Real "
+  note="PARTIAL: that a finite molecule's offsets are consistent along every bond (not only along the traversal's tree) is decided by an oracle. Real "
        "(non-half-integer) radii are compared numerically with margins away from the threshold. Three defects found by this check were repaired (b2e8154, "
        "67e456d, 4ae34c7).",
   technique="Coq proof (Z, lists, Permutation, no axioms; invariant over the BFS traversal) of a hand model reusing the C03 theorems + exact correspondence + brute-force / union-find oracles",
@@ -184,9 +186,11 @@ CLAIMED = {
        "column, sends a constant column to lo, and the one-sided modes are rigid shifts hitting the requested bound (range_normalised); the combined "
        "distance sqrt(sum (a_k-b_k)^2 + sum m_k^2) is symmetric, zero on the diagonal, non-negative and satisfies the triangle inequality (Cauchy-Schwarz "
        "and Minkowski proved by induction over lists) whenever each pair-gene component does (distance_metric); for any label list the index groups "
-       "[where(labels == i)] are a partition that agrees with the labels (groups_agree); the reference components of the graph 'closer than t' (the "
+       "[where(labels == i)] are a partition that agrees with the labels (groups_agree); k-means labels are the nearest-centroid assignment for any centroids "
+       "and observations (kmeans_assignment); the reference components of the graph 'closer than t' (the "
        "queue traversal shared with C04) are a partition, closed under near pairs, connected, and never left by a chain (single_linkage_components). Tied to "
-       "the code by correspondence (normalised columns, squared distances, groups, scipy single-linkage fcluster vs the reference) and by oracles on the real "
+       "the code by correspondence (normalised columns, squared distances, groups, k-means labels against the centroids scipy returned, scipy single-linkage "
+       "fcluster vs the reference) and by oracles on the real "
        "API: metric axioms, ranges, partitions for 4 linkage methods and k-means, union-find components, permutation equivariance.",
   note="scipy.cluster (linkage, fcluster, kmeans, vq) is not modelled: its output is compared with the proved reference on sampled inputs (partial for the "
        "clause 'single-linkage clusters are exactly the components'). Permutation invariance is an oracle on the real API, not a theorem. Pair genes are "
